@@ -344,4 +344,19 @@ Definition run_assign (k : enc_kind) (s : estate) (l : list assignment) : estate
 (* what forward reads: self.steps, self.dt, self.frequency, self.refrac, self.compensated *)
 Definition forward_config (s : estate) : config :=
   mkConfig (e_steps s) (e_dt s) (e_freq s) (Some (e_refrac s)) (e_comp s).
+(* GeneratorMixin: the generator attribute.  A generator is identified by a number (None = the global RNG);
+   the setter stores whatever is assigned [mixins.py GeneratorMixin.generator]. *)
+Record gstate := mkG { g_enc : estate; g_gen : option Z }.
+Inductive gassignment := GA (a : assignment) | GGen (o : option Z).
+Definition assign_g (k : enc_kind) (s : gstate) (ga : gassignment) : gstate * option Z :=
+  match ga with
+  | GA a => let r := assign k (g_enc s) a in (mkG (fst r) (g_gen s), snd r)
+  | GGen o => (mkG (g_enc s) o, None)
+  end.
+Fixpoint assign_g_all (k : enc_kind) (s : gstate) (l : list gassignment) : list (gstate * option Z) * gstate :=
+  match l with
+  | [] => ([], s)
+  | a :: t => let r := assign_g k s a in
+              let '(rest, fin) := assign_g_all k (fst r) t in (r :: rest, fin)
+  end.
 End Model.
